@@ -309,4 +309,186 @@ def setConstraints {V : Type} (allowed : List String) : CDict V → List (String
       | .ok d' => setConstraints allowed d' rest
       | .error e => (d, some e)
 
+
+/-- the first entries of a `constraints = {...}` assignment that are applied: everything before the first
+invalid key (the setter raises there, the earlier entries stay assigned) -/
+def effectiveItems {V : Type} (allowed : List String) : List (String × V) → List (String × V)
+  | [] => []
+  | (k, v) :: rest => if k ∈ allowed then (k, v) :: effectiveItems allowed rest else []
+
+/-! ## several live models of one class (growth round 5)
+
+`BaseConstraints.__init__`: `self._constraints = self.DEFAULT_CONSTRAINTS.copy()` — every instance gets its
+OWN dictionary; the class attribute `DEFAULT_CONSTRAINTS` is only read.  A registry is the list of the
+dictionaries of all live models of one class, in creation order. -/
+abbrev Registry (V : Type) := List (CDict V)
+
+/-- the public operations on the models of one class -/
+inductive RegOp (V : Type) where
+  /-- `cls(...)`: build another model -/
+  | new : RegOp V
+  /-- `models[i].add_constraint(k, v)` -/
+  | add : Nat → String → V → RegOp V
+  /-- `models[i].constraints = dict(items)` -/
+  | set : Nat → List (String × V) → RegOp V
+  /-- `models[i].constraints = cls.DEFAULT_CONSTRAINTS` (what `PtychographyBase.reset_recon` does) -/
+  | resetDefaults : Nat → RegOp V
+
+/-- one operation; the second component is the exception it raises (if any).  An index that names no
+model is a harness error and changes nothing. -/
+def regStep {V : Type} (allowed : List String) (defaults : CDict V) (reg : Registry V) :
+    RegOp V → Registry V × Option CErr
+  | .new => (reg ++ [defaults], none)
+  | .add i k v =>
+      match reg[i]? with
+      | none => (reg, none)
+      | some d =>
+          match addConstraint allowed d k v with
+          | .ok d' => (reg.set i d', none)
+          | .error e => (reg, some e)
+  | .set i items =>
+      match reg[i]? with
+      | none => (reg, none)
+      | some d => let r := setConstraints allowed d items; (reg.set i r.1, r.2)
+  | .resetDefaults i =>
+      match reg[i]? with
+      | none => (reg, none)
+      | some d => let r := setConstraints allowed d defaults; (reg.set i r.1, r.2)
+
+/-- a whole history (exceptions are caught by the caller, who carries on) -/
+def runReg {V : Type} (allowed : List String) (defaults : CDict V) (reg : Registry V)
+    (ops : List (RegOp V)) : Registry V :=
+  ops.foldl (fun r op => (regStep allowed defaults r op).1) reg
+
+/-- the same operation seen by ONE model `j` alone: operations addressed to other models (and `new`) do nothing -/
+def dictStep {V : Type} (allowed : List String) (defaults : CDict V) (j : Nat) (d : CDict V) :
+    RegOp V → CDict V
+  | .new => d
+  | .add i k v => if i = j then (match addConstraint allowed d k v with | .ok d' => d' | .error _ => d) else d
+  | .set i items => if i = j then (setConstraints allowed d items).1 else d
+  | .resetDefaults i => if i = j then (setConstraints allowed d defaults).1 else d
+
+def runDict {V : Type} (allowed : List String) (defaults : CDict V) (j : Nat) (d : CDict V)
+    (ops : List (RegOp V)) : CDict V :=
+  ops.foldl (dictStep allowed defaults j) d
+
+/-- `ProbeConstraints.apply_hard_constraints` with `center_probe` off (the Fourier-shift recentring is
+outside the property): `if constraints["orthogonalize_probe"]: probe = _probe_orthogonalization_constraint(probe)` -/
+def probeApplyHard (orthogonalize : Bool) (vs : List (Vec R)) : List (Vec R) :=
+  if orthogonalize then gramSchmidt vs else vs
+
+/-! ## the probe model as a state machine with its validation branches (growth round 5)
+
+`ProbePixelated` as far as the initial-probe clause is concerned.  Every public mutator validates BEFORE
+it stores; a rejected call (`ValueError`) leaves the model as it was. -/
+inductive PErr where
+  | valueError
+  deriving Repr, DecidableEq
+
+structure ProbeModel (R : Type) where
+  /-- `num_probes` -/
+  numProbes : Nat
+  /-- `roi_shape` (fixed by `from_array`) -/
+  roi : Nat × Nat
+  /-- `_initial_probe_weights` -/
+  weights : List R
+  /-- `_initial_probe` -/
+  initial : List (Img R)
+  /-- `_probe` (the raw parameter the optimiser drives) -/
+  param : List (Img R)
+  /-- `_mean_diffraction_intensity` (unset before the first `set_initial_probe`) -/
+  meanInt : Option R
+
+/-- `rows × cols` of every image of a stack equals `roi` and there are `n` of them
+(`validate_tensor(..., shape=(num_probes, *roi_shape))`) -/
+def stackShapeOk (n : Nat) (roi : Nat × Nat) (p : List (Img R)) : Bool :=
+  p.length == n && p.all fun img => img.length == roi.1 && img.all fun row => row.length == roi.2
+
+inductive ProbeOp (R : Type) where
+  /-- `pm.initial_probe_weights = w` (`none` = `None`: the defaults) -/
+  | setWeights : Option (List R) → ProbeOp R
+  /-- `pm.set_initial_probe(roi, recip, M)`; `ramps` are the random phase ramps drawn by this call -/
+  | setInitial : Nat × Nat → R → List (Img R) → ProbeOp R
+  /-- `pm.probe = p` -/
+  | setProbe : List (Img R) → ProbeOp R
+  /-- `pm.reset()` -/
+  | reset : ProbeOp R
+
+/-- ```
+initial_probe_weights.setter:  None -> defaults
+                               len(weights) != num_probes -> ValueError   (nothing stored)
+                               else w2 / sum(w2)
+set_initial_probe:  roi_shape conflicts -> ValueError; mean_diffraction_intensity <= 0 -> ValueError
+                    (both before anything of the probe is touched)
+                    probes = _apply_weights(_apply_random_phase_shifts(initial_probe.clone()))
+                    _initial_probe = probes; _probe = Parameter(probes.clone())
+probe.setter:       validate_tensor(shape=(num_probes, *roi_shape)) -> ValueError, else _probe.data = prb
+reset():            _probe = Parameter(_initial_probe.clone())
+``` -/
+def probeStep (st : ProbeModel R) : ProbeOp R → ProbeModel R × Option PErr
+  | .setWeights none => ({ st with weights := defaultWeights st.numProbes }, none)
+  | .setWeights (some w) =>
+      if w.length != st.numProbes then (st, some .valueError)
+      else ({ st with weights := normWeights w }, none)
+  | .setInitial roi m ramps =>
+      if roi != st.roi then (st, some .valueError)
+      else if Num.leb m Num.zero then (st, some .valueError)
+      else
+        let probes := applyWeights m st.weights (List.zipWith mulImg st.initial ramps)
+        ({ st with initial := probes, param := probes, meanInt := some m }, none)
+  | .setProbe p =>
+      if stackShapeOk st.numProbes st.roi p then ({ st with param := p }, none)
+      else (st, some .valueError)
+  | .reset => ({ st with param := st.initial }, none)
+
+def runProbeOps (st : ProbeModel R) (ops : List (ProbeOp R)) : ProbeModel R :=
+  ops.foldl (fun s op => (probeStep s op).1) st
+
+/-- the weights a history leaves behind, computed from the REQUESTS alone: the last accepted
+`initial_probe_weights` assignment (normalised; `None` = defaults), else the weights before the history -/
+def lastAcceptedWeights (n : Nat) (w0 : List R) : List (ProbeOp R) → List R
+  | [] => w0
+  | .setWeights none :: rest => lastAcceptedWeights n (defaultWeights n) rest
+  | .setWeights (some w) :: rest =>
+      if w.length != n then lastAcceptedWeights n w0 rest else lastAcceptedWeights n (normWeights w) rest
+  | _ :: rest => lastAcceptedWeights n w0 rest
+
+/-! ## the tomography constraint dictionary (`tomography/object_models.py:ObjectConstraints`)
+
+`hard_constraints` setter / `add_hard_constraint` are the same per-entry validated assignment as
+`BaseConstraints` (modelled by `setConstraints` / `addConstraint` with `allowed = DEFAULT_HARD_CONSTRAINTS.keys()`);
+`ObjectVoxelwise.__init__` installs `DEFAULT_HARD_CONSTRAINTS.copy()` into the instance's own `{}`.
+Python truthiness of the `shrinkage` entry: `False`, `0`, `0.0`, `None` skip the shrinkage step. -/
+inductive TomoVal (R : Type) where
+  | bool : Bool → TomoVal R
+  | num : R → TomoVal R
+  | none : TomoVal R
+
+/-- `if value:` for the values a constraint entry can hold (`NaN` is truthy in Python; `ltb`/`leb` are false on it) -/
+def TomoVal.truthy : TomoVal R → Bool
+  | .bool b => b
+  | .num x => !(Num.leb x Num.zero && Num.leb Num.zero x)
+  | .none => false
+
+/-- `apply_hard_constraints` reading its two entries from the dictionary -/
+def tomoApplyHardD (pos shr : TomoVal R) (obj : List R) : List R :=
+  tomoApplyHard pos.truthy
+    (match shr with
+     | .num s => if (TomoVal.num s).truthy then some s else none
+     | .bool true => some Num.one        -- `obj2 - True` : True is 1
+     | _ => none) obj
+
+/-! ## class defaults (pinned against the class attributes on every run) -/
+
+/-- `ObjectConstraints.DEFAULT_CONSTRAINTS`, the entries the hard constraints read -/
+def objDefaultCons : ObjCons R :=
+  { positivity := true, fixBaseline := false, baselineFactor := Num.one, identicalSlices := false,
+    applyFovMask := false }
+/-- `ProbeConstraints.DEFAULT_CONSTRAINTS["orthogonalize_probe"]` / `["center_probe"]` -/
+def probeDefaultOrthogonalize : Bool := true
+def probeDefaultCenter : Bool := false
+/-- tomography `DEFAULT_HARD_CONSTRAINTS["positivity"]` / `["shrinkage"]` -/
+def tomoDefaultPositivity : TomoVal R := .bool false
+def tomoDefaultShrinkage : TomoVal R := .bool false
+
 end QuantemModel.Constraints
